@@ -15,8 +15,15 @@ Shapes == { [n |-> 2, m |-> 1, holder |-> <<1, 2>>], [n |-> 2, m |-> 2, holder |
             [n |-> 3, m |-> 2, holder |-> <<1, 1, 2>>] }          \* two wallets of the same cosigner
 \* wallet settings: anti-fee-sniping alternates over the wallets (no rule of the property semantics reads them: what a
 \* wallet imports does not depend on its settings)
-Cfgs == { [n |-> c.n, m |-> c.m, holder |-> c.holder, afs |-> [w \in 1..Len(c.holder) |-> w % 2 = 1], height |-> <<1, 0, 0, 0>>] :
-          c \in Shapes }
+\* what the wallets know: all know the output / the last wallet is an offline signer / (three wallets) the last
+\* has not derived the address and the one before is offline
+Knows(c) == LET W0 == Len(c.holder) IN
+            {[w \in 1..W0 |-> "utxo"]}
+            \cup (IF c.m = 2 /\ c.n <= 3 THEN {[w \in 1..W0 |-> IF w = W0 THEN "keys" ELSE "utxo"]} ELSE {})
+            \cup (IF c.m = 2 /\ W0 = 3 THEN {[w \in 1..W0 |-> IF w = W0 THEN "none" ELSE IF w = W0 - 1 THEN "keys" ELSE "utxo"]} ELSE {})
+\* (what the wallets know is settled when the address is funded, see Fund; until then nobody knows an output)
+Cfgs == { [n |-> c.n, m |-> c.m, holder |-> c.holder, afs |-> [w \in 1..Len(c.holder) |-> w % 2 = 1],
+           height |-> <<1, 0, 0, 0>>, knows |-> [w \in 1..Len(c.holder) |-> "utxo"]] : c \in Shapes }
 Id(n) == [i \in 1..n |-> i]
 Rv(n) == [i \in 1..n |-> n + 1 - i]
 PermSet(n) == IF n <= 3 \/ Big THEN Perms(n)
@@ -35,8 +42,11 @@ Create == /\ phase = "setup"
 \* the common address is funded once every cosigner has derived it; from here on the listing orders play no role
 Fund == /\ phase = "setup" /\ \A w \in W : order[w] # <<>>
         /\ \A w, v \in W : ScriptOf(cfg, order[w], rank) = ScriptOf(cfg, order[v], rank)
-        /\ script' = ScriptOf(cfg, order[1], rank) /\ phase' = "funded" /\ order' = [w \in W |-> <<>>]
-        /\ UNCHANGED <<cfg, rank, s, hand, pushedSig, proposed>>
+        \* (the agreed script is checked in this step, see FundAgrees; the ceremony does not depend on the key order, so the
+        \* rank is forgotten as well: one ceremony state space for all ranks)
+        /\ rank' = Id(cfg.n) /\ script' = TheScript(cfg, Id(cfg.n)) /\ phase' = "funded" /\ order' = [w \in W |-> <<>>]
+        /\ \E k \in Knows(cfg) : cfg' = [cfg EXCEPT !.knows = k]
+        /\ UNCHANGED <<s, hand, pushedSig, proposed>>
 \* two bodies stand for the proposer's freedom (locktime 0 or block height, final or replaceable sequence, ...)
 Bodies == {[NoBody EXCEPT !.locktime = <<0>>]} \cup (IF cfg.n <= 3 THEN {[NoBody EXCEPT !.locktime = <<1>>]} ELSE {})
 Propose == /\ phase = "funded" /\ \E w \in W, b \in Bodies : s' \in A_Propose(cfg, s, w, b) /\ proposed' = b
@@ -46,19 +56,23 @@ Sign == /\ phase = "funded" /\ \E w \in W : s' \in A_Sign(cfg, s, w) /\ s' # s
 HandOff == /\ phase = "funded" /\ hand < MaxHandoffs
            /\ \E w, v \in W, f \in Forms : s' \in A_HandOff(cfg, s, w, v, f, {})
            /\ hand' = hand + 1 /\ UNCHANGED <<cfg, rank, order, phase, script, pushedSig, proposed>>
+HandOffRefused == /\ phase = "funded" /\ {x \in W \X W \X Forms : s.copy[x[1]].has /\ x[1] # x[2] /\ MayRefuse(cfg, x[2], x[3])} # {}
+                  /\ UNCHANGED vars
 SendOk == /\ phase = "funded"
           /\ \E w \in W : SendPushes(cfg, s, w) /\ s' \in A_Send(cfg, s, w) /\ pushedSig' = s.copy[w].signed
           /\ UNCHANGED <<cfg, rank, order, phase, script, hand, proposed>>
 SendRefused == /\ phase = "funded"
                /\ \E w \in W : s.copy[w].has /\ ~SendPushes(cfg, s, w) /\ s' \in A_Send(cfg, s, w)
                /\ UNCHANGED <<cfg, rank, order, phase, script, hand, pushedSig, proposed>>
-Next == Create \/ Fund \/ Propose \/ Sign \/ HandOff \/ SendOk \/ SendRefused
+Next == Create \/ Fund \/ Propose \/ Sign \/ HandOff \/ HandOffRefused \/ SendOk \/ SendRefused
 Spec == Init /\ [][Next]_vars
 
 Holders(B) == {cfg.holder[w] : w \in B}
 \* all wallets created so far derive one and the same script: the n keys in rank order with threshold m
 Agreement == \A w \in W : order[w] # <<>> => ScriptOf(cfg, order[w], rank) = TheScript(cfg, rank)
 FundedScript == phase = "funded" => script = TheScript(cfg, rank)
+\* the address is funded only when every wallet arrived at the one script of the group
+FundAgrees == [][(phase = "setup" /\ phase' = "funded") => \A w \in W : ScriptOf(cfg, order[w], rank) = TheScript(cfg, rank)]_vars
 \* a copy is valid exactly when at least m distinct cosigners signed on the chain that led to it - in any order,
 \* through any chain of hand-offs
 ValidIffMDistinctSigners == \A w \in W : Valid(cfg, s.copy[w]) <=> (s.copy[w].has /\ Cardinality(Holders(s.by[w])) >= cfg.m)
@@ -72,6 +86,13 @@ HandOffKeeps == \A w, v \in W, f \in Forms : \A s2 \in A_HandOff(cfg, s, w, v, f
                     /\ Valid(cfg, s2.copy[v]) = Valid(cfg, s.copy[w])
                     /\ s2.copy[v].signed \subseteq s.copy[w].signed
                     /\ (f # "raw" \/ NSig(s.copy[w]) <= cfg.m) => s2.copy[v].signed = s.copy[w].signed
+\* whatever the importing wallet knows: unless it may refuse, it gets the copy, can add its signature, and the result is
+\* valid as soon as m distinct cosigners have signed (an offline signer is a full cosigner)
+OfflineSignerSuffices ==
+    \A w, v \in W, f \in Forms : (s.copy[w].has /\ w # v /\ ~MayRefuse(cfg, v, f)) =>
+        /\ A_HandOff(cfg, s, w, v, f, {}) # {}
+        /\ \A s2 \in A_HandOff(cfg, s, w, v, f, {}) : \A s3 \in A_Sign(cfg, s2, v) :
+              Cardinality(s.copy[w].signed \cup {cfg.holder[v]}) >= cfg.m => Valid(cfg, s3.copy[v])
 \* the named deviation is exactly what breaks this: it is enabled nowhere in the model
 \* every copy, wherever it travelled, is the transaction that was proposed: what the signatures commit to never changes
 CommitmentPreserved == \A w \in W : s.copy[w].has => s.copy[w].body = proposed /\ proposed \in Bodies
